@@ -39,6 +39,11 @@ Not covered (and not claimed): that decoded values equal what e2fsprogs wrote - 
 }
 
 func runC05(w *World, r *Report) {
+	r.Assume("go/ssa + static call resolution is a sound over-approximation of control flow inside package ext4 (interface calls on extent nodes change no descriptor or superblock field)")
+	r.Assume("C05-a idiom (i): a range loop that flushes per element runs at least once whenever something was dirtied before it (deallocateExtents fills the two maps it ranges over with the same keys)")
+	r.Assume("C05-a idiom (ii): the self-flushing helpers incrGD*/decrGD* are the flush points for a bitmap checksum refreshed just before them; on their zero-delta path no bit changed")
+	r.Assume("C05-a idiom (iii): an in-package callee whose in-package call closure never mentions io.EOF cannot return io.EOF, so the 'err == io.EOF' continuation after it is infeasible")
+	r.Assume("error returns are not examined: what the image looks like after a refused operation is not decided")
 	c05Flush(w, r)
 	c05ChecksumLast(w, r)
 	c05BitIndex(w, r, "C05-c")
@@ -54,6 +59,8 @@ func runC05(w *World, r *Report) {
 }
 
 func runC04(w *World, r *Report) {
+	r.Assume("C04-a keeps one dirty bit per function for 'an inode loaded from disk was changed'; the flush of File.Write guarded by 'size or block count differs from the value saved on entry' is taken to discharge the stores made on that path")
+	r.Assume("C04-a: an in-package callee whose call closure never mentions io.EOF cannot return io.EOF")
 	c04WriteBack(w, r)
 	sub := newReport("C04", r.Tier)
 	c19Frames(w, sub)
@@ -1148,19 +1155,42 @@ func c04DirRewrite(w *World, r *Report) {
 		r.Ok("C04-e", fnName(rm), "parent directory rewritten in all of its blocks", w.relFile(rm.Pos()), "through writeDirectory")
 		return
 	}
-	// the block writes: WriteAt whose data derives from Directory.toBytes
+	// the block writes: WriteAt whose data derives from Directory.toBytes, in Remove or in a phase helper it calls
+	// (the serialised bytes then arrive as a parameter)
 	var writes []ssa.CallInstruction
-	for _, c := range calls(rm, false, isWriteAt) {
-		pv := w.prov(argsOf(c)[0], provOpts{})
-		if pv.hasCallNamed("toBytes") {
-			writes = append(writes, c)
+	host := rm
+	scope := w.reachableFrom([]*ssa.Function{rm}, func(f *ssa.Function) bool { return w.pkgOf(f) == pE4c })
+	for _, f := range sortedFns(scope) {
+		if f != rm && (f.Name() == "writeInode" || f.Name() == "writeGDT" || f.Name() == "writeSuperblock" || strings.Contains(f.Name(), "Bitmap") || f.Name() == "deallocateExtents") {
+			continue
+		}
+		for _, c := range calls(f, false, isWriteAt) {
+			pv := w.prov(argsOf(c)[0], provOpts{bindParams: true})
+			// the bytes are the ones Remove itself serialised (writeDirectory, reached through the mkdir path, has its own
+			// contract: it sets the directory's size to what it wrote)
+			fromRemove := f != wd && pv.hasCall(func(rt Root) bool {
+				if rt.Call == nil || rt.Fn == nil || rt.Fn.Name() != "toBytes" {
+					return false
+				}
+				// serialised by Remove or one of its phase helpers, not by a function that hands the bytes to writeDirectory
+				ser := rt.Call.Parent()
+				return len(calls(ser, false, func(c ssa.CallInstruction) bool { return c.Common().StaticCallee() == wd })) == 0
+			})
+			if fromRemove && len(cycleThrough(c.Block())) > 0 {
+				if len(writes) == 0 {
+					host = f
+				}
+				if f == host {
+					writes = append(writes, c)
+				}
+			}
 		}
 	}
 	if len(writes) == 0 {
 		r.Fail("C04-e", fnName(rm), "parent directory rewritten in all of its blocks", w.relFile(rm.Pos()), "Remove neither calls writeDirectory nor writes the re-serialised parent directory to the device: the removed name stays listed")
 		return
 	}
-	bad, why := loopWritesEveryBlock(rm, writes[0])
+	bad, why := loopWritesEveryBlock(host, writes[0])
 	r.Check(!bad, "C04-e", fnName(rm), "parent directory rewritten in all of its blocks", w.relFile(writes[0].Pos()), "every iteration of the block loop writes its block",
 		why+"an iteration of the loop over the parent directory's blocks can end (or the loop can be left) without writing the block: blocks beyond the shorter listing keep their old entries, which are listed again")
 }
